@@ -230,12 +230,17 @@ func runC19(r *Run, verifDir string) {
 		}
 		switch na := nextArg.(type) {
 		case *ssa.Call:
-			// builder(idx+1)
-			if len(na.Call.Args) != 1 {
+			// builder(idx+1): the builder is the function variable holding the enclosing closure, or (method form)
+			// the function that creates this continuation, called with the same receiver
+			if sc := na.Call.StaticCallee(); sc != nil && sc != c.k.Parent() {
+				w3 = "the next continuation is built by a function other than the one that builds this continuation"
+				break
+			}
+			if len(na.Call.Args) < 1 || len(na.Call.Args) > 2 {
 				w3 = "the next continuation is built by a call the rule does not recognise"
 				break
 			}
-			sum, ok := na.Call.Args[0].(*ssa.BinOp)
+			sum, ok := na.Call.Args[len(na.Call.Args)-1].(*ssa.BinOp)
 			one, _ := constIntVal(func() ssa.Value {
 				if ok {
 					return sum.Y
@@ -310,6 +315,28 @@ func c19Start(r *Run, c *chain) {
 	fv := cursorVar(c.idx)
 	ok, why := false, ""
 	// new idiom: builder(0) in top; old idiom: cursor cell initialised to 0 in top
+	// method form: the builder is a declared function (the continuation's parent); its entry call is elsewhere
+	if par := c.k.Parent(); par != nil && par.Parent() == nil {
+		for _, fn := range r.P.OwnFuncs() {
+			allInstrs(fn, func(in ssa.Instruction) {
+				x, isCall := in.(*ssa.Call)
+				if !isCall || x.Call.StaticCallee() != par || fn == c.k || len(x.Call.Args) == 0 {
+					return
+				}
+				if k, isK := constIntVal(x.Call.Args[len(x.Call.Args)-1]); isK {
+					for _, ref := range *x.Referrers() {
+						if c2, isC := ref.(*ssa.Call); isC && c2.Call.Value == ssa.Value(x) {
+							if k == 0 {
+								ok = true
+							} else {
+								why = fmt.Sprintf("the chain is entered at position %d", k)
+							}
+						}
+					}
+				}
+			})
+		}
+	}
 	allInstrs(top, func(in ssa.Instruction) {
 		switch x := in.(type) {
 		case *ssa.Call:
